@@ -22,6 +22,7 @@ structure RawCfg where
   maxParallel : Nat := Gen.C24.cfg_fetch_max_parallel_requests
   refresh : Int := Gen.C24.cfg_fetch_availability_refresh
 
+def provTtl : Int := 100000000 * second
 def minTtl : Int := Gen.C24.cfg_min_manifest_ttl
 def maxTtl : Int := Gen.C24.cfg_max_manifest_ttl
 
@@ -36,7 +37,7 @@ structure St where
   links : List String := []
   manifests : List (String × Int) := []   -- manifest_cache_: chunk ↦ expiry (wall ns)
   store : List (String × Int) := []       -- chunk ↦ steady-clock expiry of the stored record
-  provs : List (String × String) := []    -- provider directory: (chunk, peer)
+  provs : List (String × String × Int) := []  -- provider directory: (chunk, peer, steady-clock expiry)
   peers : List String := []
   model : State := State.init
   deadlines : List (String × Int) := []   -- monitor: chunk ↦ recorded expiry of its pending fetch
@@ -54,7 +55,7 @@ def held (st : St) (c : String) : Bool :=
 def envOf (st : St) : Env :=
   { held := held st,
     sendOk := fun p => st.keys.contains p && st.links.contains p,
-    providers := fun c => ((st.provs.filter (·.1 == c)).map (·.2)).eraseDups.length }
+    providers := fun c => ((st.provs.filter fun x => x.1 == c && decide (st.now < x.2.2)).map (·.2.1)).eraseDups.length }
 
 def sortStrs (l : List String) : List String := l.mergeSort (fun a b => a ≤ b)
 def joinOrDash (l : List String) : String := if l.isEmpty then "-" else ";".intercalate l
@@ -219,10 +220,11 @@ def step (st : St) (tok : List String) (_line : String) (impl : Option String) :
     (st, modelLine st [], judge st false none impl)
   | ["prov", c, p] =>
     let st := startNode st
-    ({ st with provs := if st.provs.contains (c, p) then st.provs else (c, p) :: st.provs }, "ok", "ok")
+    -- the harness registers the contact with a TTL of 10^8 s (`add_contact` replaces the holder's entry)
+    ({ st with provs := (c, p, st.now + provTtl) :: st.provs.filter fun x => !(x.1 == c && x.2.1 == p) }, "ok", "ok")
   | ["unprov", c, p] =>
     let st := startNode st
-    ({ st with provs := st.provs.filter (· != (c, p)) }, "ok", "ok")
+    ({ st with provs := st.provs.filter fun x => !(x.1 == c && x.2.1 == p) }, "ok", "ok")
   | ["ann", c, p, x] =>
     match x.toInt? with
     | none => (st, "bad-op", "ok")
